@@ -148,6 +148,9 @@ pub(crate) fn is_plain_safe(s: &str) -> bool {
     if s.starts_with('\u{FEFF}') {
         return false;
     }
+    if looks_like_document_marker(s) {
+        return false;
+    }
 
     // YAML indicators are only special in certain forms.
     // For example, "-a" and "?query" are valid plain scalars, while "-" / "?"
@@ -195,6 +198,9 @@ pub(crate) fn is_plain_value_safe(s: &str, yaml_12: bool, in_flow: bool) -> bool
     if s.starts_with('\u{FEFF}') {
         return false;
     }
+    if looks_like_document_marker(s) {
+        return false;
+    }
 
     match bytes[0] {
         b'-' | b'?' => {
@@ -227,6 +233,13 @@ pub(crate) fn is_plain_value_safe(s: &str, yaml_12: bool, in_flow: bool) -> bool
         // In block style, commas/brackets/braces are ordinary characters.
         !contains_any_or_is_control(s, &['#'])
     }
+}
+
+/// True if `s` would be read as a document start / end marker (`---`, `...`) when it is the
+/// first thing on a line.
+fn looks_like_document_marker(s: &str) -> bool {
+    let b = s.as_bytes();
+    (b.starts_with(b"---") || b.starts_with(b"...")) && (b.len() == 3 || b[3] == b' ')
 }
 
 fn contains_any_or_is_control(string: &str, values: &[char]) -> bool {
